@@ -7,6 +7,8 @@ import (
 	"errors"
 	"fmt"
 	"os"
+	"path/filepath"
+	"strconv"
 	"strings"
 	"sync"
 	"sync/atomic"
@@ -128,6 +130,21 @@ func TestC19(t *testing.T) {
 	case "debug+trace":
 		mocker.OpenDebug()
 		mocker.OpenTrace()
+	case "close-first":
+		// a teardown that normalises to "off" without anything having been opened: still off
+		mocker.CloseDebug()
+		mocker.CloseTrace()
+	case "toggled-off":
+		mocker.OpenTrace()
+		mocker.CloseTrace()
+		mocker.OpenDebug()
+		mocker.CloseDebug()
+		mocker.CloseTrace()
+	case "reopened":
+		mocker.OpenDebug()
+		mocker.CloseDebug()
+		mocker.CloseTrace()
+		mocker.OpenTrace()
 	}
 	rng := vmon.NewRng(vmon.Seed(), 19)
 	n := vmon.EnvInt("VERIF_C19_SCEN", 40)
@@ -212,6 +229,26 @@ func TestC19(t *testing.T) {
 			rec("FPtr stubbed -> %v %v %v", p == nil, e != nil, i != nil)
 		})
 		b.Reset()
+		// mocks of library functions a logger is likely to use itself: the caller-visible results are the same and the
+		// process survives (the callbacks are not recorded: the logger may call them as any other caller would)
+		rep.Journal(map[string]interface{}{"scenario": s, "part": "library functions the log path may use", "crashkey": "C19/mocked-log-path-function-recurses"})
+		rep.JournalSync()
+		try("library functions the log path may use", func() {
+			bl := mocker.Create()
+			defer bl.Reset()
+			var n int64
+			bl.Func(os.Getenv).Apply(func(k string) string { atomic.AddInt64(&n, 1); return "mocked-" + k })
+			bl.Func(os.Getpid).Apply(func() int { atomic.AddInt64(&n, 1); return 4242 })
+			bl.Func(strconv.Itoa).Apply(func(i int) string { atomic.AddInt64(&n, 1); return "itoa" })
+			bl.Func(filepath.Base).Apply(func(p string) string { atomic.AddInt64(&n, 1); return "base" })
+			rec("library mocks -> %s %d %s %s", os.Getenv("VERIF_C19_KEY"), os.Getpid(), strconv.Itoa(7), filepath.Base("/a/b"))
+			bl.Func(F1).Apply(func(a int) int { return a + 1 })
+			rec("F1 while library functions are mocked -> %d", F1(k))
+			if atomic.LoadInt64(&n) > 10000 {
+				rec("library mocks: runaway, %d callback runs", n)
+			}
+		})
+		rep.Journal(map[string]interface{}{"scenario": s, "part": "after the library-function mocks"})
 		// configuration and calls issued from frames whose file name has no directory (//line directives)
 		try("generated-code frames", func() {
 			bg := mocker.Create()
